@@ -4,7 +4,9 @@ open Proto Stat
 
 /-  requests (floats as IEEE bit patterns, names comma separated, `-` = empty list):
       ts   <ns> <ll>                              -> TS of WilksTestStatistic
-      tst  <ns> <ll> <a> <b>                      -> TS of the zero-ns Taylor variant
+      tst  <ns> <ll> <a> <b>                      -> TS of the zero-ns Taylor variant | notfinite
+      ll   <N> <nSel> <ns> <Xs>                   -> logΛ (stable regime)
+      lh   <N> <nSel> <Xs> <ops>                  -> history on one LLH-ratio object (e<ns>, n, g<ns>, t)
       g1   <N> <nSel> <ns> <Xs>                   -> d logΛ / d ns   (stable regime)
       g2   <N> <nSel> <ns> <gs>                   -> calculate_ns_grad2 (single dataset)
       g2m  <g2s> <fs>                             -> calculate_ns_grad2 (multi dataset)
@@ -30,7 +32,30 @@ def pNames (s : String) : List String := pList id s
 def answer (line : String) : String :=
   match tokens line with
   | ["ts", ns, ll] => fF (ts (pF ns) (pF ll))
-  | ["tst", ns, ll, a, b] => fF (tsTaylor (pF ns) (pF ll) (pF a) (pF b))
+  | ["tst", ns, ll, a, b] => match tsTaylor (pF ns) (pF ll) (pF a) (pF b) with
+      | some x => fF x
+      | none => "notfinite"
+  | ["ll", n, nsel, ns, xs] => fF (llrStable (pN n) (pN nsel) (pF ns) (pList pF xs))
+  | ["lh", n, nsel, xs, ops] =>
+      -- history on one LLH-ratio object: e<ns> evaluate, n new trial, g<ns> calculate_ns_grad2, t Taylor TS at ns = 0
+      let N := pN n
+      let nSel := pN nsel
+      let Xs := pList pF xs
+      let step (acc : LlhSt Float × List String) (op : String) : LlhSt Float × List String :=
+        let (st, out) := acc
+        let arg := (op.drop 1).toString
+        if op.startsWith "e" then (st.evaluate (pF arg) Xs, out)
+        else if op.startsWith "n" then (LlhSt.fresh, out)
+        else if op.startsWith "g" then
+          match st.grad2 N nSel (pF arg) with
+          | .ok x => (st, out ++ [fF x])
+          | .error _ => (st, out ++ ["R"])
+        else
+          match tsTaylorOn st N nSel Xs with
+          | (st', .ok (some x)) => (st', out ++ [fF x])
+          | (st', .ok none) => (st', out ++ ["notfinite"])
+          | (st', .error _) => (st', out ++ ["R"])
+      fListD id ((pList id ops).foldl step (LlhSt.fresh, [])).2
   | ["g1", n, nsel, ns, xs] => fF (nsGrad (pN n) (pN nsel) (pF ns) (pList pF xs))
   | ["g2", n, nsel, ns, gs] => fF (nsGrad2 (pN n) (pN nsel) (pF ns) (pList pF gs))
   | ["g2m", g2s, fs] => fF (nsGrad2Multi (pList pF g2s) (pList pF fs))
@@ -50,6 +75,7 @@ def answer (line : String) : String :=
       | .ok (x, du) => s!"ok {fF x} {du}"
       | .error .valueError => "err V"
       | .error .indexError => "err I"
+      | .error .notFinite => "err N"
   | ["bind", ps, req, kw, npos, kws] =>
       match pyBind { params := pNames ps, required := pNames req, kwargs := pB kw } (pN npos) (pNames kws) with
       | .ok _ => "ok"
